@@ -19,7 +19,15 @@ func (fc *fnCtx) execBlock(b *ssa.BasicBlock, st *state, edgeIn map[*ssa.BasicBl
 		case *ssa.Alloc:
 			fc.execAlloc(st, i)
 		case *ssa.Store:
-			fc.anchor(st, "store", i, nil, fc.storeTarget(i), false)
+			var sbind map[string]Val
+			if tgt := fc.storeTarget(i); tgt != "" {
+				if sv, isV := fc.env[i.Val].(Val); isV {
+					sbind = map[string]Val{"$val": sv}
+				} else if _, isC := i.Val.(*ssa.Const); isC {
+					sbind = map[string]Val{"$val": fc.val(i.Val)}
+				}
+			}
+			fc.anchor(st, "store", i, sbind, fc.storeTarget(i), false)
 			if a, ok := i.Addr.(*ssa.Alloc); ok {
 				if sv, isV := fc.env[i.Val].(Val); isV {
 					if src, shared := fc.aliasOf[sv.T]; shared {
@@ -28,7 +36,7 @@ func (fc *fnCtx) execBlock(b *ssa.BasicBlock, st *state, edgeIn map[*ssa.BasicBl
 				}
 			}
 			fc.store(st, fc.asAddr(i.Addr), fc.val(i.Val))
-			fc.anchor(st, "store", i, nil, fc.storeTarget(i), true)
+			fc.anchor(st, "store", i, sbind, fc.storeTarget(i), true)
 		case *ssa.UnOp:
 			fc.execUnOp(st, i)
 		case *ssa.BinOp:
@@ -366,7 +374,20 @@ func (fc *fnCtx) execSlice(st *state, i *ssa.Slice) {
 		x := fc.val(i.X)
 		if i.Low != nil {
 			if c, ok := i.Low.(*ssa.Const); !ok || c.Int64() != 0 {
-				unsup("slice expression with a non-zero low bound")
+				// x[lo:hi]: a fresh slice value holding x's elements lo..hi-1, sharing x's backing array
+				lo := fc.val(i.Low)
+				hiT := fmt.Sprintf("(slen %s)", x.T)
+				if i.High != nil {
+					hiT = fc.val(i.High).T
+				}
+				fc.safety(st, "slice-bounds", fmt.Sprintf("(and (<= 0 %s) (<= %s %s) (<= %s (slen %s)))", lo.T, lo.T, hiT, hiT, x.T), i.Pos())
+				rv := fc.freshVal(st, "resl", i.Type())
+				fc.assume(st, fmt.Sprintf("(= (slen %s) (- %s %s))", rv.T, hiT, lo.T))
+				fc.assume(st, fmt.Sprintf("(forall ((q!i Int)) (! (=> (and (<= 0 q!i) (< q!i (slen %s))) (= (select (sarr %s) q!i) (select (sarr %s) (+ %s q!i)))) :pattern ((select (sarr %s) q!i))))", rv.T, rv.T, x.T, lo.T, rv.T))
+				fc.aliasOf[rv.T] = x
+				fc.aliasOff[rv.T] = lo.T
+				fc.env[i] = rv
+				return
 			}
 		}
 		if i.High == nil {
